@@ -15,24 +15,26 @@
                                         FvCtor K fields  ~ PCtor K fields'   fields pointwise ([brel n])
                                         FvNew / FvThunk  ~ any producer value that behaves alike under
                                                            every destructor ([Co n], behavioural)
-     brel n : fbv   -> bval -> Prop     FbP v ~ BP pv (vrel n),  FbK k ~ BK kv (Kb n)
-     Kb n   : fkont -> kval -> Prop     for every j < n and every DATA value v ~_j pv:
-                                        sim j (FRet k v) (interact_val pv kv)
-     Co n   : fval  -> pval -> Prop     for every j < n, destructor x, arguments args ~_j args' and
-                                        continuation k ~_j kv:
-                                        sim j (FRet (FkDtor x args k) v)
-                                              (interact_val pv (KDtor x (args' ++ [BK kv])))
+     brel n : fbv   -> bval -> Prop     FbP v ~ BP pv (vrel n),  FbK k ~ BK kv (Kk n false)
+     Kk n c : fkont -> kval -> Prop     continuations, by the KIND c of the values they expect (false: data,
+                                        true: codata): for every j < n and every value v of kind c with
+                                        v ~_j pv:   sim j (FRet k v) (interact_val pv kv)
+     Co n   : fval  -> pval -> Prop     for every j < n, destructor x, DATA arguments args ~_j args' and
+                                        continuation k ~_j kv of the kind x returns ([dkind]):
+                                        sim (S j) (FRet (FkDtor x args k) v)
+                                                  (interact_val pv (KDtor x (args' ++ [BK kv])))
+                                        (the source machine takes a step at a destructor frame: S j)
 
    A source environment and a Core environment are related pointwise by brel on the names the Core
-   statement mentions (Proof/Fun2CoreFL.v); a source continuation k is related to the SYNTACTIC Core
-   consumer the translation carries along through the consumer VALUE that syntax denotes in every
-   environment that agrees with the current one on the consumer's free variables.
+   statement mentions (Proof/Fun2CoreFLa.v); a source continuation k is related to the SYNTACTIC Core
+   consumer the translation carries along through what that syntax does in every environment that agrees
+   with the current one on the consumer's free variables.
 
-   [Kb] quantifies over data values only ([dval]): in a well-typed program a codata value is only ever
-   returned to a destructor frame, which is what [Co] describes (the Core machine treats a cut at a
-   codata type consumer-first, so the continuation of a codata-typed term is not a [Kb]-continuation).
-   The fundamental lemma is proved for the fragment [frag] of Proof/Fun2CoreFL.v; the clauses for
-   codata are part of the relation but no term form of the fragment produces or consumes them.
+   Kinds: in a well-typed program a codata value is only ever returned to a destructor frame (or to a
+   covariable standing for one): [Kk_dtor] - a destructor frame FkDtor x args k ~ KDtor x (args' ++ [kv]) is a
+   continuation of kind codata.  The Core machine treats a cut at a codata type consumer-first, a
+   by-name let binds a thunk (PThunk ~ FvThunk, related by Co through the translation of the bound term).
+   The fundamental lemma is proved for the fragment [frag]/[kd] of Model/Fun2CoreGuard.v.
    ====================================================================================== *)
 From Coq Require Import List ZArith NArith String Bool Lia.
 From SCC Require Import Base.Sexp Lang.SynUtil Lang.FunSyn Lang.FunTy Lang.CoreSyn.
